@@ -394,3 +394,7 @@ def run(ctx):
     from vt.checks import xcli
 
     xcli.artifact_cli_part(ctx)
+    # history freedom of the functions of their input behind this property (Pure.tla)
+    from vt.checks import xpure
+
+    xpure.pure_part(ctx, xpure.entries_for("C15"))
